@@ -22,7 +22,11 @@ RULE = ('nested mappings of depth <= 4 and width <= 5 built from dict, OrderedDi
         '(the same mapping re-masked with different secrets, a result fed to the next call with another secret, '
         'strings whose embedded secret already equals the mask, repeated and interleaved calls); plus, for every '
         'sanitize key and rendering, the shortest strings that rendering can take (one-character and empty secrets, '
-        'length len(key)+2 upwards) under non-sanitize keys at depth 1..4 in every Mapping type. Non-trivial: the result differs from the '
+        'length len(key)+2 upwards) under non-sanitize keys at depth 1..4 in every Mapping type; DAG-shaped arguments '
+        '(one Mapping object, dict or not, empty or not, reachable through several key paths: siblings, different '
+        'depths, under sanitize keys); non-mappings that have items()/keys()/__getitem__ (ad-hoc classes, '
+        'email.message.Message, xml Element, SimpleNamespace(items=..)) as the argument (TypeError) and as values '
+        '(left alone), and a registered virtual Mapping subclass (accepted). Non-trivial: the result differs from the '
         'argument (something was masked) or TypeError was raised; distinct by the encoded tree and mask')
 TRUSTED_BASE = [
     'Lean 4 kernel; axioms audited per theorem (subset of propext, Classical.choice, Quot.sound)',
@@ -57,9 +61,87 @@ class FrozenMap(collections.abc.Mapping):
         return 'FrozenMap(%r)' % (self._d,)
 
 
-def make_mapping(rng, items):
-    kind = rng.choice(['dict', 'dict', 'dict', 'ordered', 'default', 'user', 'proxy', 'frozen'])
+class _PairStore:
+    """items()/keys()/values()/__getitem__/__iter__/__len__/__contains__ over a private dict."""
+
+    def __init__(self, d=()):
+        self._d = dict(d)
+
+    def items(self):
+        return self._d.items()
+
+    def keys(self):
+        return self._d.keys()
+
+    def values(self):
+        return self._d.values()
+
+    def __getitem__(self, k):
+        return self._d[k]
+
+    def __iter__(self):
+        return iter(self._d)
+
+    def __len__(self):
+        return len(self._d)
+
+    def __contains__(self, k):
+        return k in self._d
+
+    def __repr__(self):
+        return '%s(%r)' % (type(self).__name__, self._d)
+
+
+class VirtualMap(_PairStore):
+    """Not derived from Mapping but registered as a virtual subclass: it IS a collections.abc.Mapping."""
+
+
+collections.abc.Mapping.register(VirtualMap)
+
+
+class DuckItems(_PairStore):
+    """Looks like a mapping (items, keys, __getitem__, __iter__ ...) but is NOT a collections.abc.Mapping."""
+
+
+class ItemsOnly:
+    def items(self):
+        return [('password', 'x'), ('user', 'token=abc')]
+
+
+def _email_message():
+    import email.message
+    m = email.message.Message()
+    m['password'] = 'x'
+    m['user'] = 'password=abc'
+    return m
+
+
+def _xml_element():
+    import xml.etree.ElementTree as ET
+    return ET.Element('server', {'password': 'x', 'note': 'token=abc'})
+
+
+# non-mappings that have items() (and more): the property demands TypeError for each of them as the argument,
+# and "returned as it is" when one is a value inside a mapping.  Named so that a replay can rebuild them.
+SPECIALS = {
+    'duck-items': lambda: DuckItems({'password': 'x', 'user': 'password=abc', 'n': {'token': 'y'}}),
+    'duck-empty': lambda: DuckItems(),
+    'items-only': ItemsOnly,
+    'namespace-items': lambda: types.SimpleNamespace(items=lambda: [('password', 'x')], keys=lambda: ['password']),
+    'email-message': _email_message,
+    'xml-element': _xml_element,
+    'dict-items-view': lambda: {'password': 'x'}.items(),
+    'class-dict': lambda: dict,
+}
+
+MAPPING_KINDS = ['dict', 'dict', 'dict', 'ordered', 'default', 'user', 'proxy', 'frozen', 'virtual']
+
+
+def make_mapping(rng, items, kind=None):
+    kind = kind or rng.choice(MAPPING_KINDS)
     d = dict(items)
+    if kind == 'virtual':
+        return VirtualMap(d)
     if kind == 'dict':
         return d
     if kind == 'ordered':
@@ -168,7 +250,10 @@ def _other_leaf(rng):
     return object()
 
 
-def gen_tree(rng, depth, width):
+def gen_tree(rng, depth, width, pool=None):
+    """`pool` collects the finished sub-mappings of this argument: one of them is sometimes REUSED as a value (the same
+    object at two or more key paths -- an acyclic, DAG-shaped argument; the result is a function of structure)."""
+    pool = [] if pool is None else pool
     n = rng.randrange(0, width + 1)
     items, used = [], []
     for _ in range(n):
@@ -176,12 +261,40 @@ def gen_tree(rng, depth, width):
         if any(type(k) is type(u) and k == u or k == u for u in used):
             continue
         used.append(k)
-        if depth > 1 and rng.random() < 0.35:
-            v = gen_tree(rng, depth - 1, width)
+        x = rng.random()
+        if pool and x < 0.12:
+            v = rng.choice(pool)
+        elif depth > 1 and x < 0.42:
+            v = gen_tree(rng, depth - 1, width, pool)
+        elif x > 0.97:
+            v = SPECIALS[rng.choice(sorted(SPECIALS))]()       # a non-mapping with items(): left alone as a value
         else:
             v = gen_leaf(rng)
         items.append((k, v))
-    return make_mapping(rng, items)
+    m = make_mapping(rng, items)
+    pool.append(m)
+    return m
+
+
+def gen_dag(rng):
+    """Arguments in which one Mapping object is reachable through several key paths."""
+    kind = rng.choice(MAPPING_KINDS)
+    shape = rng.choice(['siblings', 'depths', 'empty', 'thrice', 'nested-shared', 'under-sanitize-key', 'random'])
+    if shape == 'random':
+        return gen_tree(rng, rng.choice([2, 3, 4]), rng.choice([3, 4, 5]), [make_mapping(rng, [('user', 'bob')])])
+    creds = make_mapping(rng, [] if shape == 'empty' else
+                         [('user', 'admin'), (rng.choice(['password', 'Token', 'id']), gen_leaf(rng)),
+                          ('note', 'password=abc')], kind)
+    if shape in ('siblings', 'empty'):
+        return make_mapping(rng, [('primary', creds), ('fallback', creds), ('n', 1)])
+    if shape == 'depths':
+        return make_mapping(rng, [('a', creds), ('b', make_mapping(rng, [('c', make_mapping(rng, [('d', creds)]))]))])
+    if shape == 'thrice':
+        return make_mapping(rng, [('x', creds), (7, creds), ('y', make_mapping(rng, [('z', creds)]))])
+    if shape == 'nested-shared':
+        mid = make_mapping(rng, [('creds', creds), ('again', creds)])
+        return make_mapping(rng, [('one', mid), ('two', mid), ('three', creds)])
+    return make_mapping(rng, [('password', creds), ('backup', creds), ('auth_token', creds)])
 
 
 # ------------------------------------------------------------------ encoding for the model
@@ -284,8 +397,13 @@ def run_impl(arg, mask):
 
 
 def gen_case(rng, quick):
-    if rng.random() < 0.04:
+    x = rng.random()
+    if x < 0.03:
         return rng.choice([None, 3, 'password=abc', ['a'], ('k', 'v'), b'x', {1, 2}, [('password', 'x')]])
+    if x < 0.05:
+        return SPECIALS[rng.choice(sorted(SPECIALS))]()
+    if x < 0.12:
+        return gen_dag(rng)
     depth = rng.choice([1, 2, 2, 3, 3, 4])
     width = rng.choice([1, 2, 3, 4, 5, 5])
     return gen_tree(rng, depth, width)
@@ -374,14 +492,14 @@ def seq_case(done, failing_step):
             tree = Enc().val(arg)
         except Exception:
             tree = None
-        steps.append({'tree': tree, 'mask': mask, 'repr': repr(arg)[:400]})
+        steps.append({'tree': tree, 'arg': safe_dump(arg), 'mask': mask, 'repr': repr(arg)[:400]})
     return {'kind': 'seq', 'steps': steps, 'failing_step': failing_step}
 
 
 def oracle_sequence(case):
     """Property oracle on a stored sequence (decoded trees), in order; -> (index, why) of the first failing call."""
     for i, st in enumerate(case['steps']):
-        arg = decode_tree(st['tree']) if st.get('tree') else None
+        arg = case_arg(st)
         why = oracle(arg, st['mask'])
         if why:
             return i, why
@@ -429,6 +547,9 @@ def correspondence(ctx):
              {'password': ['x']}, {b'password': 'password=abc'}, {'user': 'password=abc'},
              {'Passwordİ': 1}, {'toKen': 1}, {'ſecret': 1, 'x': 'ſecret=abc secret=abc'}]
     fixed += list(short_secret_grid(rng, 2 if ctx.quick else 16))
+    fixed += [SPECIALS[n]() for n in sorted(SPECIALS)] + [{'v': SPECIALS[n](), 'password': SPECIALS[n]()} for n in sorted(SPECIALS)]
+    fixed += [VirtualMap({'password': 'x', 'n': VirtualMap({'user': 'token=abc'})})]
+    fixed += [gen_dag(rng) for _ in range(60 if ctx.quick else 1500)]
     for i in range(n + len(fixed)):
         arg = fixed[i] if i < len(fixed) else gen_case(rng, ctx.quick)
         mask = C04.gen_mask_text(rng, rng.random() < 0.2)
@@ -449,10 +570,11 @@ def correspondence(ctx):
             ctx.sample({'argument': repr(arg)[:300], 'mask': mask, 'implementation': repr(
                 gen_mask.load_strutils().mask_dict_password(arg, mask))[:300]})
         if mutated:
-            res.append(Disagreement({'tree': tree, 'mask': mask, 'repr': repr(arg)[:500]},
+            res.append(Disagreement({'tree': tree, 'arg': safe_dump(arg), 'mask': mask, 'repr': repr(arg)[:500]},
                                     'ARGUMENT MODIFIED; result ' + out, rep, where='non-mutation'))
         elif out != rep:
-            res.append(Disagreement({'tree': tree, 'mask': mask, 'repr': repr(arg)[:500]}, out, rep))
+            res.append(Disagreement({'tree': tree, 'arg': safe_dump(arg), 'mask': mask, 'repr': repr(arg)[:500]},
+                                    out, rep))
     # call sequences: the model is stateless, so every call of a sequence is compared with the model's answer
     seqs, lines = [], []
     for _ in range(60 if ctx.quick else 2500):
@@ -549,6 +671,103 @@ def oracle(arg, mask):
     return ('spec: ' + why) if why else None
 
 
+_KIND_OF = {dict: 'dict', collections.OrderedDict: 'ordered', collections.defaultdict: 'default',
+            collections.UserDict: 'user', types.MappingProxyType: 'proxy', FrozenMap: 'frozen', VirtualMap: 'virtual'}
+
+
+def special_name(v):
+    for name, make in SPECIALS.items():
+        try:
+            probe = make()
+        except Exception:
+            continue
+        if type(probe) is type(v) and (type(v) is not type or v is probe):
+            if isinstance(v, _PairStore) and dict(v.items()) != dict(probe.items()):
+                continue
+            return name
+    return None
+
+
+def dump_arg(arg):
+    """JSON form of an argument for replay files: keeps which Mapping objects are SHARED, the Mapping type of every
+    node and the named non-mapping specials; other non-str leaves / keys become placeholders."""
+    seen = {}
+
+    def key(k):
+        if type(k) is str:
+            return {'s': k}
+        for i, o in enumerate(NONSTR_KEYS):
+            if type(o) is type(k) and o == k:
+                return {'nk': i}
+        return {'r': repr(k)[:80]}
+
+    def val(v):
+        if isinstance(v, collections.abc.Mapping):
+            if id(v) in seen:
+                return {'ref': seen[id(v)]}
+            seen[id(v)] = n = len(seen)
+            return {'id': n, 'type': _KIND_OF.get(type(v), 'dict'), 'items': [[key(k), val(x)] for k, x in v.items()]}
+        if type(v) is str:
+            return {'s': v}
+        name = special_name(v)
+        if name:
+            return {'special': name}
+        if isinstance(v, (list, tuple)) and not isinstance(v, str):
+            return {'list': [val(x) for x in v], 'tuple': isinstance(v, tuple)}
+        return {'o': repr(v)[:80]}
+    return val(arg)
+
+
+class _Opaque:
+    def __init__(self, text):
+        self.text = text
+
+    def __repr__(self):
+        return '<%s>' % self.text
+
+
+def load_arg(j):
+    nodes = {}
+
+    def key(k):
+        if 's' in k:
+            return k['s']
+        if 'nk' in k:
+            return NONSTR_KEYS[k['nk']]
+        return ('key', k['r'])
+
+    def val(v):
+        if 'ref' in v:
+            return nodes[v['ref']]
+        if 'items' in v:
+            items = [(key(k), val(x)) for k, x in v['items']]
+            nodes[v['id']] = m = make_mapping(None, items, v['type'])
+            return m
+        if 's' in v:
+            return v['s']
+        if 'special' in v:
+            return SPECIALS[v['special']]()
+        if 'list' in v:
+            xs = [val(x) for x in v['list']]
+            return tuple(xs) if v.get('tuple') else xs
+        return _Opaque(v['o'])
+    return val(j)
+
+
+def safe_dump(arg):
+    try:
+        return dump_arg(arg)
+    except Exception:
+        return None
+
+
+def case_arg(case):
+    """The argument of a stored case: the sharing-preserving dump when there is one, else the plain tree."""
+    if case.get('arg') is not None:
+        return load_arg(case['arg'])
+    return decode_tree(case['tree']) if case.get('tree') else None
+
+
 def decode_tree(tree):
     """Rebuild a Python argument from the encoded tree of a correspondence disagreement (plain dicts)."""
     toks = tree.split(' ') if tree and tree != '-' else []
@@ -604,7 +823,7 @@ def search(ctx, seeds, full=False):
         if s.get('kind') == 'seq':
             continue
         try:
-            todo.append((decode_tree(s['tree']), s['mask']))
+            todo.append((case_arg(s), s['mask']))
         except Exception:
             pass
     n = (20000 if full else 1500) if ctx.quick else (150000 if full else 20000)
@@ -614,6 +833,12 @@ def search(ctx, seeds, full=False):
             todo.append(({form: 'v', 'n': {form: 5, 'plain': 'user ' + k + '=abc'}}, '***'))
     for t in short_secret_grid(rng, (4 if full else 1) if ctx.quick else 12):
         todo.append((t, C04.gen_mask_text(rng)))
+    for name in sorted(SPECIALS):
+        todo.append((SPECIALS[name](), '***'))
+        todo.append(({'v': SPECIALS[name](), 'n': {'password': SPECIALS[name]()}}, '***'))
+    todo.append((VirtualMap({'password': 'x', 'n': VirtualMap({'user': 'token=abc'})}), '***'))
+    for _ in range((400 if full else 80) if ctx.quick else 2000):
+        todo.append((gen_dag(rng), C04.gen_mask_text(rng)))
     for _ in range(n):
         mask = C04.gen_mask_text(rng)
         todo.append((gen_case(rng, ctx.quick), mask))
@@ -652,7 +877,8 @@ def search(ctx, seeds, full=False):
         if why:
             kindword = why.split(':')[0]
             try:
-                one = {'kind': 'seq', 'steps': [{'tree': Enc().val(arg), 'mask': mask, 'repr': repr(arg)[:400]}]}
+                one = {'kind': 'seq', 'steps': [{'tree': Enc().val(arg), 'arg': safe_dump(arg), 'mask': mask,
+                                                 'repr': repr(arg)[:400]}]}
                 fresh = fresh_process_fails(one)
             except Exception:
                 fresh = True
@@ -668,7 +894,7 @@ def search(ctx, seeds, full=False):
                 tree = Enc().val(small)
             except Exception:
                 tree = None
-            fails.append(Failure({'repr': repr(small)[:1500], 'tree': tree, 'mask': mask},
+            fails.append(Failure({'repr': repr(small)[:1500], 'tree': tree, 'arg': safe_dump(small), 'mask': mask},
                                  {'kind': kindword, 'what': oracle(small, mask)}))
             if len(fails) >= 5:
                 break
@@ -684,7 +910,7 @@ def replay(ctx, payload):
     if case.get('kind') == 'seq':
         bad = 0
         for i, st in enumerate(case['steps']):
-            arg = decode_tree(st['tree']) if st.get('tree') else None
+            arg = case_arg(st)
             why = oracle(arg, st['mask'])
             tree, out, mutated = run_impl(arg, st['mask'])
             print('call %d: mask=%r argument=%s' % (i, st['mask'], st.get('repr')))
@@ -694,7 +920,7 @@ def replay(ctx, payload):
             bad += bool(why)
         return 1 if bad else 0
     print('argument (repr):', case.get('repr'))
-    arg = decode_tree(case['tree']) if case.get('tree') else None
+    arg = case_arg(case)
     mask = case.get('mask', '***')
     tree, out, mutated = run_impl(arg, mask)
     print('implementation :', out, '(ARGUMENT MODIFIED)' if mutated else '')
